@@ -19,7 +19,7 @@
    takes the change first (Go's select may take either; the result of the other order is the cancellation branch). *)
 From Util Require Import Common.Base Common.ListLemmas RefCount.Model RefCount.Proofs RefCount.ProofsC08 RefCount.ProofsC08b RefCount.ProofsC10
   RefCount.ProofsC10a RefCount.ProofsC10b.
-From Util Require Import RefCount.Spec RefCount.ProofsMon RefCount.ProofsMon2 RefCount.ProofsMonThm.
+From Util Require Import RefCount.Spec RefCount.ProofsMon RefCount.ProofsMon2 RefCount.ProofsMonThm RefCount.ProofsMonThm2.
 
 (* while some reference (in particular the one returned to the caller) is in the set before and after a step, that step
    calls a release function only if it invalidates the stored value (SetContext with a different context, released() of
@@ -248,45 +248,53 @@ Example c10_example_access_error :
 Proof. vm_compute. reflexivity. Qed.
 
 (* ---- the monitors that are evaluated on the implementation's traces, tied to this model ----
-   For EVERY configuration the codec accepts and EVERY list of harness events: on the observations the model itself produces
-   (eager schedule of Spec.hstep; the run stops at the first event the model does not accept) no monitor clause in [proved]
-   is ever false: clauses 10.1 (not released while held), 10.2 (released callback at most once), 10.3 (fired once after an invalidation, at rest) (and (p, 9): the model's observations always parse).  [mon_only keep] is [Spec.mon] with the reported clauses filtered
-   by [keep]; [proved] is the list below.  So these monitors cannot raise an alarm on an implementation that behaves like the
-   model, and the model satisfies the property in exactly the form the checks evaluate it.
-   The Access clauses 10.4 (value passed = current value) and 10.5 (invalidated => callback context cancelled) are covered by the
-   second theorem below, for the configurations with generation-unique resolver values ([k] and [k; 0]).
-   NOT covered (full statement: the same with [mon] in place of [mon_only ...], for every configuration): the Access clauses
-   10.6 (the callback's result returned only from an unraced invocation; re-invocation at rest) and 10.7 (resolver error /
-   Canceled returned as such), and 10.4 / 10.5 in the constant-value configuration [k; 1] (the invariants behind the monitors'
-   idea of the stored generation are proved for generation-unique values only).  Those remain tied to the model by the
-   differential check on every trace and by the Access theorems above, not by a proof about the monitors' own bookkeeping. *)
+   THE FULL STATEMENT.  For EVERY configuration the codec accepts (also the constant-value configuration [k; 1] of the ABA
+   shape) and EVERY list of harness events: on the observations the model itself produces (eager schedule of Spec.hstep; the
+   run stops at the first event the model does not accept) the monitors [Spec.mon] - ALL clauses of C08, C09 and C10, nothing
+   filtered - report nothing: 10.1 (not released while held), 10.2 (released callback at most once), 10.3 (fired once after an
+   invalidation, at rest), 10.4 (Access passes the current value), 10.5 (invalidated => the callback's context is cancelled),
+   10.6 (the callback's result is returned only from an invocation that was not invalidated; re-invocation at rest),
+   10.7 (resolver error / Canceled returned as such), and the observations always parse.
+   So these monitors cannot raise an alarm on an implementation that behaves like the model, and the model satisfies the property
+   in exactly the form the checks evaluate it.  Behind 10.4 - 10.7: the judge's books of Spec.mon1 (inside the callback, its
+   context cancelled, invalidated since the invocation started, decided to return: expected code and whether a callback result)
+   are tied to the model state by an invariant of the codec's states ([Racc2] in ProofsMon22.v): "invalidated" holds exactly when
+   Access's nonce has left its snapshot; "decided" holds exactly when the consumer is inside its final Release or has returned,
+   and the expected code is the code it returns; every Access consumer the eager schedule has left is inside its callback,
+   waiting with an unchanged nonce and an uncancelled caller, or returning.  The monitors' idea of the stored generation is the
+   model's in every configuration (light invariant [InvLt] of ProofsMon17.v: no generation-unique values needed). *)
+Theorem c10_model_satisfies_monitors : forall cfg evs,
+  monitor mon 0 (minit cfg) [] evs (run_obs step_opt (hinit cfg) evs) = [].
+Proof. exact model_satisfies_monitors. Qed.
+Print Assumptions c10_model_satisfies_monitors.
+
+(* hence the extracted checker [run_check_refcount] reports nothing at all (no BadEvent, no Mismatch, no PropFalse) on any
+   history that the model accepts completely *)
+Theorem c10_model_run_check_clean : forall cfg evs,
+  length (run_obs step_opt (hinit cfg) evs) = length evs ->
+  run_check_refcount cfg evs (run_obs step_opt (hinit cfg) evs) = [].
+Proof. exact model_run_check_clean. Qed.
+Print Assumptions c10_model_run_check_clean.
+
+(* the hypothesis is satisfiable and the run is not trivial: the ABA history in the constant-value configuration (the value 7
+   is invalidated and resolved again while the Access callback runs: the first result, 10, is NOT returned; the callback is
+   invoked again and its result 11 is returned after the final Release) is accepted completely and judged clean *)
+Example c10_example_monitors_aba :
+  let evs := [[1; 1]; [10; 2]; [7; 0; 1]; [8; 0; 1; 0]; [9; 0]; [5; 0]; [7; 1; 1]; [8; 1; 1; 0]; [9; 1]; [13; 0; 10]; [13; 0; 11]; [4; 0]]%N in
+  let obs := run_obs step_opt (hinit [0; 1]%N) evs in
+  length obs = length evs /\ run_check_refcount [0; 1]%N evs obs = [] /\
+  (* the consumer's row (code v e held fired firepc) after the first return, after the second, and at the end *)
+  map (fun o => skipn (length o - 6) o) (skipn 9 obs) = [[6; 7; 0; 0; 0; 0]; [2; 0; 0; 0; 0; 0]; [3; 11; 0; 0; 0; 0]]%N.
+Proof. vm_compute. repeat split; reflexivity. Qed.
+
+(* the clause-wise corollaries (kept: the partial statements the full one supersedes) *)
 Theorem c10_model_satisfies_monitors_clauses : forall cfg evs,
   monitor (mon_only proved) 0 (minit cfg) [] evs (run_obs step_opt (hinit cfg) evs) = [].
 Proof. exact model_satisfies_monitors_clauses. Qed.
 Print Assumptions c10_model_satisfies_monitors_clauses.
 
-Theorem c10_model_run_check_clean_clauses : forall cfg evs,
-  length (run_obs step_opt (hinit cfg) evs) = length evs ->
-  run_check step_opt (mon_only proved) (hinit cfg) (minit cfg) evs (run_obs step_opt (hinit cfg) evs) = [].
-Proof. exact model_run_check_clean_clauses. Qed.
-Print Assumptions c10_model_run_check_clean_clauses.
-
-Example c10_proved_clauses : forallb proved [(10, 1); (10, 2); (10, 3); (10, 9)]%nat = true.
-Proof. reflexivity. Qed.
-
-(* the same for the configurations with generation-unique resolver values, with the Access clauses 10.4 and 10.5 in addition *)
 Theorem c10_model_satisfies_monitors_clauses_acc : forall cfg evs,
   match cfg with [_; c] => c = 0%N | _ => True end ->
   monitor (mon_only proved_acc) 0 (minit cfg) [] evs (run_obs step_opt (hinit cfg) evs) = [].
 Proof. exact model_satisfies_monitors_clauses_acc. Qed.
 Print Assumptions c10_model_satisfies_monitors_clauses_acc.
-
-Theorem c10_model_run_check_clean_clauses_acc : forall cfg evs,
-  match cfg with [_; c] => c = 0%N | _ => True end ->
-  length (run_obs step_opt (hinit cfg) evs) = length evs ->
-  run_check step_opt (mon_only proved_acc) (hinit cfg) (minit cfg) evs (run_obs step_opt (hinit cfg) evs) = [].
-Proof. exact model_run_check_clean_clauses_acc. Qed.
-Print Assumptions c10_model_run_check_clean_clauses_acc.
-
-Example c10_proved_acc_clauses : forallb proved_acc [(10, 1); (10, 2); (10, 3); (10, 4); (10, 5); (10, 9)]%nat = true /\ proved_acc (10, 6)%nat = false /\ proved_acc (10, 7)%nat = false.
-Proof. repeat split; reflexivity. Qed.
